@@ -97,7 +97,7 @@ Next ==
            \* the database file itself was replaced by another version: whatever the WAL looks like, the old chain is void.
            \* (A lost/reset local state directory alone is NOT in this class: litestream re-fetches its last file from the
            \* replica and may legitimately prove continuity against an untouched WAL.)
-           stateLost == e.op = "ReplaceDb" /\ e.res = "ok"
+           stateLost == e.op \in {"ReplaceDb", "RestoreAll"} /\ e.res = "ok"
            \* the flags stay up on the line where the first new file appears (it is judged there) and fall afterwards
            lost0     == IF Len(Created(p)) > 0 THEN FALSE ELSE lost
            reset0    == IF Len(Created(p)) > 0 THEN FALSE ELSE reset
@@ -179,7 +179,7 @@ C13_WalBoundedAfterSync_ ==
 C13_IdleSilence_ == idleNew = 0
 
 (* C14: litestream never alters the application's data *)
-C14_LitestreamStepKeepsAppData_ == (IsStep /\ ~IsApp(cur) /\ cur.op # "ReplaceDb") => cur.app = prev.app
+C14_LitestreamStepKeepsAppData_ == (IsStep /\ ~IsApp(cur) /\ cur.op \notin {"ReplaceDb", "RestoreAll"}) => cur.app = prev.app
 C14_SameAsControlRun_ == (IsStep /\ cur.ctl # -1) => cur.app = cur.ctl
 C14_BookkeepingOnly_ == IsStep => (cur.lockN \in {0, -1} /\ cur.integ = "ok" /\ (cur.seqPg # 0 => cur.journal = "wal"))
 
